@@ -594,7 +594,8 @@ static std::string reg_abstract(const std::string &t)
   return o;
 }
 
-static void c07scan_child(const NvCpu *cpu, int lo, int hi, int step, int tails, int stails, uint32_t addr, int fd, int emit, int deep)
+static void c07scan_child(const NvCpu *cpu, int lo, int hi, int step, int tails, int stails, uint32_t addr, int fd, int emit, int deep,
+                          int extonly)
 {
   std::set<std::string> emitted;
   long deep_patterns = 0;
@@ -611,6 +612,13 @@ static void c07scan_child(const NvCpu *cpu, int lo, int hi, int step, int tails,
     if (write(fd, out.data(), out.size()) < 0) { _exit(3); }
     out.clear();
     alarm(60);
+    if (extonly)
+    {
+      // structured tails only matter where the instruction reaches into the second half word
+      fill(mem, addr, p, 0, false, 0);
+      std::string t0;
+      if (nv_disasm(cpu, &mem, addr, t0) <= 2) { continue; }
+    }
     std::vector<int> tl;
     for (int tail = 3 - tails; tail < 3 + stails; tail++) { tl.push_back(tail); }
     if (deep)
@@ -746,6 +754,7 @@ static void do_c07scan(const Frame &q, Frame &a)
   uint32_t addr = strtoul(get(q, "addr", "256").c_str(), NULL, 0);
   int emit = atoi(get(q, "emit", "0").c_str());
   int deep = atoi(get(q, "deep", "0").c_str());
+  int extonly = atoi(get(q, "extonly", "0").c_str());
   std::string texts;
   std::string anomalies;
   std::set<std::string> closed_all;
@@ -762,7 +771,7 @@ static void do_c07scan(const Frame &q, Frame &a)
     if (pid == 0)
     {
       close(fds[0]);
-      c07scan_child(cpu, cur, hi, step, tails, stails, addr, fds[1], emit, deep);
+      c07scan_child(cpu, cur, hi, step, tails, stails, addr, fds[1], emit, deep, extonly);
     }
     close(fds[1]);
     std::string text;
